@@ -3,6 +3,7 @@ package pipe
 import (
 	"context"
 	"fmt"
+	"sync"
 
 	"github.com/vektah/gqlparser/v2/gqlerror"
 
@@ -17,9 +18,16 @@ const (
 )
 
 // recorder collects the event log of one request as Coq terms.
-type recorder struct{ events []string }
+type recorder struct {
+	mu     sync.Mutex
+	events []string
+}
 
-func (r *recorder) add(format string, a ...any) { r.events = append(r.events, fmt.Sprintf(format, a...)) }
+func (r *recorder) add(format string, a ...any) {
+	r.mu.Lock()
+	r.events = append(r.events, fmt.Sprintf(format, a...))
+	r.mu.Unlock()
+}
 
 type core struct {
 	idx int
@@ -119,7 +127,9 @@ func (e extR) InterceptResponse(ctx context.Context, n graphql.ResponseHandler) 
 func (e extRt) InterceptRootField(ctx context.Context, n graphql.RootResolver) graphql.Marshaler {
 	return e.root(ctx, n)
 }
-func (e extF) InterceptField(ctx context.Context, n graphql.Resolver) (any, error) { return e.field(ctx, n) }
+func (e extF) InterceptField(ctx context.Context, n graphql.Resolver) (any, error) {
+	return e.field(ctx, n)
+}
 
 func (e extAll) MutateOperationParameters(ctx context.Context, p *graphql.RawParams) *gqlerror.Error {
 	return e.param(ctx, p)
@@ -136,7 +146,9 @@ func (e extAll) InterceptResponse(ctx context.Context, n graphql.ResponseHandler
 func (e extAll) InterceptRootField(ctx context.Context, n graphql.RootResolver) graphql.Marshaler {
 	return e.root(ctx, n)
 }
-func (e extAll) InterceptField(ctx context.Context, n graphql.Resolver) (any, error) { return e.field(ctx, n) }
+func (e extAll) InterceptField(ctx context.Context, n graphql.Resolver) (any, error) {
+	return e.field(ctx, n)
+}
 
 func (e extPC) MutateOperationParameters(ctx context.Context, p *graphql.RawParams) *gqlerror.Error {
 	return e.param(ctx, p)
@@ -153,7 +165,9 @@ func (e extOR) InterceptResponse(ctx context.Context, n graphql.ResponseHandler)
 func (e extRtF) InterceptRootField(ctx context.Context, n graphql.RootResolver) graphql.Marshaler {
 	return e.root(ctx, n)
 }
-func (e extRtF) InterceptField(ctx context.Context, n graphql.Resolver) (any, error) { return e.field(ctx, n) }
+func (e extRtF) InterceptField(ctx context.Context, n graphql.Resolver) (any, error) {
+	return e.field(ctx, n)
+}
 func (e extORRF) InterceptOperation(ctx context.Context, n graphql.OperationHandler) graphql.ResponseHandler {
 	return e.op(ctx, n)
 }
